@@ -600,6 +600,9 @@ func (rt *RT) Materialise(f *Fn) interface{} {
 		return bankMake(rt, f)
 	}
 	ft := rt.typeOfFn(f)
+	if f.NilFn {
+		return reflect.Zero(ft).Interface()
+	}
 	return reflect.MakeFunc(ft, func(args []reflect.Value) []reflect.Value {
 		return rt.call(f, args)
 	}).Interface()
